@@ -32,6 +32,9 @@ type C19Scenario struct {
 	// Span > 0: every header verifies non-adjacent headers only up to Span heights ahead, so a head further away
 	// comes back from the trusted peers with a soft VerifyError and is taken through bifurcation
 	Span int `json:"span,omitempty"`
+	// Reconf: every option is given twice, first with another value (options are last-wins, so the effective
+	// configuration is the same): 1 = first values 60x larger, 2 = first values 1000x smaller
+	Reconf int `json:"reconf,omitempty"`
 }
 
 const (
@@ -43,6 +46,7 @@ const (
 func genC19(t *rapid.T) C19Scenario {
 	s := C19Scenario{Start: rapid.SampledFrom([]string{"empty", "fresh", "fresh", "old"}).Draw(t, "start"),
 		Span: rapid.SampledFrom([]int{0, 0, 0, 3}).Draw(t, "span")}
+	s.Reconf = rapid.SampledFrom([]int{0, 0, 1, 2}).Draw(t, "reconf")
 	n := rapid.IntRange(3, 25).Draw(t, "nevents")
 	for i := 0; i < n; i++ {
 		var ev C19Event
@@ -75,9 +79,16 @@ func runC19(t *testing.T, s C19Scenario) (res Result) {
 			spans = []uint64{uint64(s.Span)}
 		}
 		chain := newSyncChain("c19", c19Tip0+3400, c19Tip0, c19Delta, spans)
-		e, err := newSyncEnv(chain, c19Tip0, c19Delta, nil,
+		var pre []hsync.Option
+		switch s.Reconf {
+		case 1:
+			pre = []hsync.Option{hsync.WithBlockTime(60 * c19Delta), hsync.WithTrustingPeriod(60 * c19Trusting), hsync.WithSyncFromHeight(1), hsync.WithPruningWindow(time.Hour)}
+		case 2:
+			pre = []hsync.Option{hsync.WithBlockTime(c19Delta / 1000), hsync.WithTrustingPeriod(c19Trusting / 1000), hsync.WithSyncFromHeight(c19Tip0), hsync.WithPruningWindow(time.Second)}
+		}
+		e, err := newSyncEnv(chain, c19Tip0, c19Delta, nil, append(pre,
 			hsync.WithBlockTime(c19Delta), hsync.WithTrustingPeriod(c19Trusting),
-			hsync.WithSyncFromHeight(c19Tip0-300), hsync.WithPruningWindow(10_000*time.Hour))
+			hsync.WithSyncFromHeight(c19Tip0-300), hsync.WithPruningWindow(10_000*time.Hour))...)
 		if err != nil {
 			res.failf("HARNESS: %v", err)
 			return
